@@ -149,6 +149,8 @@ func c12Main(specBytes []byte) {
 				x.dead()
 			case "silent":
 				x.silent()
+			case "longidle":
+				x.longIdle()
 			}
 			x.res.Ms = time.Since(t0).Milliseconds()
 			Emit(x.res)
@@ -1643,4 +1645,60 @@ func (x *c12Exec) silent() {
 	x.step(c12Step{Op: "open-silent", Status: a.Status, Ms: a.ms()})
 	x.res.Statuses = fmt.Sprintf("open=%d after %dms", a.Status, a.ms())
 	x.judge("open-silent", "open against a backend that accepts the connection and never answers the websocket upgrade", "", a)
+}
+
+// ------------------------------------------------------------ long idle session
+
+// longIdle: sessions whose backend says nothing for Rep seconds (longer
+// than the poll time-out and than any read deadline one might put on an idle
+// backend connection), one with a poll outstanding and one with no call at
+// all; afterwards the sessions must work as before. A crash of the process
+// during the idle period is picked up from the worker log.
+func (x *c12Exec) longIdle() {
+	quiet, _ := x.open()
+	polled, _ := x.open()
+	if quiet == nil || polled == nil {
+		x.res.Skipped++
+		return
+	}
+	secs := x.c.Rep
+	if secs <= 0 {
+		secs = 33
+	}
+	t0 := time.Now()
+	for time.Since(t0) < time.Duration(secs)*time.Second {
+		a := x.call("poll", fmt.Sprintf("poll(session %s, backend idle for %d s)", polled.id, secs), "", nil, shimIDBody(polled.id))
+		x.step(c12Step{Op: "poll-idle", Target: polled.id, Status: a.Status, Ms: a.ms()})
+		if !a.Answered || a.Status == 400 {
+			break
+		}
+	}
+	time.Sleep(time.Until(t0.Add(time.Duration(secs) * time.Second)))
+	x.res.Statuses = fmt.Sprintf("idle %ds", secs)
+	for _, s := range []*c12Sess{quiet, polled} {
+		d := x.call("data", fmt.Sprintf("data(session %s after %d s of silence)", s.id, secs), "", nil, c12DataBody(s.id, "good morning"))
+		if d.Answered && d.Status == 200 {
+			if !s.bc.waitRecv(func(r []shimMsg) bool { return len(r) >= 1 }, 10*time.Second*time.Duration(c12Scale)) {
+				x.violate("C12:idle-session-broken:data", fmt.Sprintf("after %d s of backend silence a message posted on session %s (answered 200) did not reach its backend within 10s", secs, s.id))
+			}
+		} else if d.Answered && d.Panic == "" {
+			x.violate("C12:idle-session-broken:data", fmt.Sprintf("after %d s of backend silence, data on the still open session %s answered %d %s", secs, s.id, d.Status, shimTrunc(string(d.Body), 100)))
+		}
+		m := c12BackendMsg(0)
+		s.bc.send(m)
+		p := x.call("poll", fmt.Sprintf("poll(session %s after %d s of silence, 1 pending)", s.id, secs), "", nil, shimIDBody(s.id))
+		if p.Answered && p.Panic == "" {
+			ms, _ := shimDecodePoll(p.Body, 1)
+			if p.Status != 200 || len(ms) != 1 || c11Same(m, ms[0]) != "" {
+				x.violate("C12:idle-session-broken:poll", fmt.Sprintf("after %d s of backend silence the backend of session %s sent a message; the poll answered %d with %d messages", secs, s.id, p.Status, len(ms)))
+			}
+		}
+		c := x.call("close", fmt.Sprintf("close(session %s after the idle period)", s.id), "", nil, shimIDBody(s.id))
+		if c.Answered && c.Status == 200 {
+			x.checkBackendClosed(s, "long idle")
+			x.rejects(s, "close answered 200")
+		}
+		x.b.forget(s.token)
+	}
+	x.probe(fmt.Sprintf("%d s of backend silence", secs))
 }
